@@ -43,6 +43,9 @@ def run(ctx):
     sat_merge(ctx, facts)
     partial_nonzero(ctx, facts)
     prf_wiring(ctx, facts)
+    from rules import C07, C11
+    C07.aggregate(ctx, facts)        # bucket aggregation: grow by the carry while narrower than the output, then saturate
+    C11.input_bound(ctx, facts)      # every report of the shard's input is read (size handed through, single take)
     ctx.assume("integer_add / sharded shuffle / OPRF / breakdown-reveal aggregation compute what their names say (C07, C05, C19 and the not-decided numerical part)")
     ctx.assume("end-to-end equality of the histogram with the plaintext reference is not decided")
 
